@@ -135,6 +135,7 @@ STREAM_FILES = {
     'synenc': {'ref': 'synenc_v1', 'names': ['synenc_v1', 'synenc_a1']},
     'synwild': {'ref': 'synwild_v1', 'names': ['synwild_v1', 'synwild_a1']},
     'synnum': {'ref': 'synnum_v1', 'names': ['synnum_v1', 'synnum_a1']},
+    'synmk': {'ref': 'synmk_v1', 'names': ['synmk_v1', 'synmk_a1']},
 }
 
 
